@@ -126,18 +126,46 @@ theorem tupProd_nil_of_mem (ls : List (List Val)) (h : [] ∈ ls) : tupProd ls =
     · subst h; rfl
     · rw [ih h]; simp
 
-theorem extent_nodup {sch : Schema} {db : DB} (hc : Conforms sch db) (t : Nat) :
-    (db.extent t).Nodup := by
+theorem extent_nodup {sch : Schema} {db : DB} (hc : Conforms sch db) (lin : List Nat) :
+    (db.extent lin).Nodup := by
   unfold DB.extent
-  have h1 : (db.objs.filter (fun o => o.2 == t)).Nodup := by
-    have : db.objs.Nodup := nodup_of_map _ _ hc.ids
-    exact this.sublist List.filter_sublist
-  have h2 : ((db.objs.filter (fun o => o.2 == t)).map (·.1)).Nodup :=
+  have h2 : ((db.objs.filter (fun o => lin.contains o.2)).map (·.1)).Nodup :=
     (hc.ids.sublist (List.Sublist.map _ List.filter_sublist))
-  have : (db.objs.filter (fun o => o.2 == t)).map (fun o => Val.obj o.1)
-      = ((db.objs.filter (fun o => o.2 == t)).map (·.1)).map Val.obj := by simp
+  have : (db.objs.filter (fun o => lin.contains o.2)).map (fun o => Val.obj o.1)
+      = ((db.objs.filter (fun o => lin.contains o.2)).map (·.1)).map Val.obj := by simp
   rw [this]
   exact nodup_map_inj _ (fun a b hab => by cases hab; rfl) _ h2
+
+/-- an object has one exact type -/
+theorem objs_type_unique {objs : List (Nat × Nat)} (h : (objs.map (·.1)).Nodup) {i t t' : Nat}
+    (h1 : (i, t) ∈ objs) (h2 : (i, t') ∈ objs) : t = t' := by
+  induction objs with
+  | nil => cases h1
+  | cons o os ih =>
+    simp only [List.map_cons, List.nodup_cons, List.mem_map, not_exists, not_and] at h
+    rcases List.mem_cons.1 h1 with e1 | e1 <;> rcases List.mem_cons.1 h2 with e2 | e2
+    · rw [← e1] at e2; cases e2; rfl
+    · exact absurd (by rw [← e1]) (h.1 (i, t') e2)
+    · exact absurd (by rw [← e2]) (h.1 (i, t) e1)
+    · exact ih h.2 e1 e2
+
+theorem normTy_single (sch : Schema) (x : Nat) : normTy sch (.obj [x]) = .obj [x] := by
+  simp [normTy, dedupN, isortN, insertN]
+
+/-- `types_disjoint` between two plain types: no object belongs to both -/
+theorem typesDisjoint_plain {sch : Schema} {db : DB} (hc : Conforms sch db) {x y : Nat}
+    (htd : typesDisjoint sch (.obj [x]) (.obj [y]) = true) {v : Val}
+    (hx : HasTy sch db (.obj [x]) v) (hy : HasTy sch db (.obj [y]) v) : False := by
+  simp only [typesDisjoint, linKeys, normTy_single, decide_eq_true_eq] at htd
+  obtain ⟨i, ty, t, rfl, h2, h3, h4⟩ := hx
+  obtain ⟨i', ty', t', h1', h2', h3', h4'⟩ := hy
+  cases h1'
+  simp only [List.mem_singleton] at h3 h3'
+  subst h3; subst h3'
+  have := objs_type_unique hc.ids h2 h2'
+  subst this
+  have hd := (List.nodup_append.1 htd).2.2
+  exact hd [ty] (List.mem_map.2 ⟨ty, h4, rfl⟩) [ty] (List.mem_map.2 ⟨ty, h4', rfl⟩) rfl
 
 /-! ### `γm` -/
 
@@ -197,17 +225,26 @@ theorem γm_max2 {ma mb : MI} {la lb l : List Val}
   · generalize (maxMult [ma, mb]).info.own = m
     cases m <;> simp [γm]
 
-theorem unionMult_ok {ma mb : MI} {la lb : List Val}
+theorem unionMult_ok {td : Bool} {ma mb : MI} {la lb : List Val}
     (ha : γm ma.info.own la) (hb : γm mb.info.own lb)
     (hsafe : (ma.info.own.isUnique && mb.info.own.isUnique && ma.info.disjoint_union
-      && mb.info.disjoint_union) = false) :
-    γm (unionMult ma mb).info.own (la ++ lb) := by
+      && mb.info.disjoint_union) = false)
+    (htd : td = true → ∀ v ∈ la, v ∉ lb) :
+    γm (unionMult td ma mb).info.own (la ++ lb) := by
   unfold unionMult unionStep
   cases hA : ma.info.own <;> cases hB : mb.info.own
   case UNIQUE.UNIQUE =>
     have hnb : (ma.info.disjoint_union && mb.info.disjoint_union) = false := by
       simpa [hA, hB, Multiplicity.isUnique, Bool.and_assoc] using hsafe
-    simp [hA, hB, Multiplicity.isUnique, Multiplicity.isEmpty, MI.EMPTY, hnb, MI.DUPLICATE, γm]
+    rw [hA] at ha; rw [hB] at hb
+    simp only [γm] at ha hb
+    cases td with
+    | false =>
+      simp [hA, hB, Multiplicity.isUnique, Multiplicity.isEmpty, MI.EMPTY, hnb, MI.DUPLICATE, γm]
+    | true =>
+      simp only [hA, hB, Multiplicity.isUnique, Multiplicity.isEmpty, MI.EMPTY, beq_self_eq_true,
+        Bool.true_or, Bool.or_true, ↓reduceIte, Bool.false_eq_true, γm]
+      exact List.nodup_append.2 ⟨ha, hb, fun a h1 b h2 hab => htd rfl a h1 (hab ▸ h2)⟩
   all_goals
     simp_all [γm, Multiplicity.isUnique, Multiplicity.isDuplicate, Multiplicity.isEmpty, MI.EMPTY,
       MI.DUPLICATE]
@@ -217,7 +254,7 @@ theorem unionMult_ok {ma mb : MI} {la lb : List Val}
 mutual
 theorem mult_ok (sch : Schema) (db : DB) (hc : Conforms sch db) (hs : SigOK sch) :
     (q : Q) → ∀ (Γ : VCtx) (env : List Val) (dist : Option Nat), accepts sch Γ q = true →
-      noExclRule sch Γ q = true → multSafe sch Γ dist q = true → EnvOK db Γ env →
+      noExclRule sch Γ q = true → multSafe sch Γ dist q = true → EnvOK sch db Γ env →
       γm (inferMult sch Γ dist q).info.own (eval sch db env q)
   | .lit n => by
     intro Γ env dist _ _ _ _
@@ -245,7 +282,7 @@ theorem mult_ok (sch : Schema) (db : DB) (hc : Conforms sch db) (hs : SigOK sch)
     split <;> simp
   | .root t => by
     intro Γ env dist _ _ _ _
-    simpa [inferMult, eval, MI.UNIQUE, γm] using extent_nodup hc t
+    simpa [inferMult, eval, MI.UNIQUE, γm] using extent_nodup hc (sch.lineage t)
   | .path src p => by
     intro Γ env dist ha hn hsafe he
     have hcard := (card_ok sch db hc hs (.path src p) Γ env ha hn he).1
@@ -261,7 +298,7 @@ theorem mult_ok (sch : Schema) (db : DB) (hc : Conforms sch db) (hs : SigOK sch)
     cases hp : sch.ptr? p with
     | none => simp [hp] at ha2
     | some d =>
-      simp only [hp, beq_iff_eq] at ha2
+      simp only [hp] at ha2
       have hs1 := hsafe.1
       simp only [hp] at hs1
       -- the flag does not change `own`
@@ -289,11 +326,17 @@ theorem mult_ok (sch : Schema) (db : DB) (hc : Conforms sch db) (hs : SigOK sch)
             cases v <;> simp [followPtr]
             exact hnd _
           · intro x hx y hy hxy v hvx hvy
-            have hxo := ihty x hx
-            have hyo := ihty y hy
-            rw [ha2] at hxo hyo
-            obtain ⟨ix, rfl, _⟩ := hxo
-            obtain ⟨iy, rfl, _⟩ := hyo
+            have hobj : ∀ w ∈ eval sch db env src, ∃ i, w = Val.obj i := by
+              intro w hw
+              have hw' := ihty w hw
+              cases hts : tyOf sch (Γ.map (·.ty)) src with
+              | other => simp [hts] at ha2
+              | obj ts =>
+                rw [hts] at hw'
+                obtain ⟨i, _, _, h1, _⟩ := hw'
+                exact ⟨i, h1⟩
+            obtain ⟨ix, rfl⟩ := hobj x hx
+            obtain ⟨iy, rfl⟩ := hobj y hy
             simp only [followPtr] at hvx hvy
             exact hdis ix iy v (fun h => hxy (by rw [h])) hvx hvy
   | .tuple es => by
@@ -350,15 +393,37 @@ theorem mult_ok (sch : Schema) (db : DB) (hc : Conforms sch db) (hs : SigOK sch)
     intro Γ env dist ha hn hsafe he
     have hcard := (card_ok sch db hc hs (.union a b) Γ env ha hn he).1
     simp only [inferCard] at hcard
-    simp only [accepts, Bool.and_eq_true, beq_iff_eq] at ha
+    simp only [accepts, Bool.and_eq_true] at ha
     simp only [noExclRule, Bool.and_eq_true] at hn
-    simp only [multSafe, safeHere, Bool.and_eq_true, Bool.not_eq_eq_eq_not, Bool.not_true] at hsafe
+    simp only [multSafe, safeHere, Bool.and_eq_true, Bool.not_eq_eq_eq_not, Bool.not_true,
+      Bool.or_eq_true] at hsafe
     have iha := mult_ok sch db hc hs a Γ env dist ha.1.1 hn.1 hsafe.1.2 he
     have ihb := mult_ok sch db hc hs b Γ env dist ha.1.2 hn.2 hsafe.2 he
+    have tya := (card_ok sch db hc hs a Γ env ha.1.1 hn.1 he).2
+    have tyb := (card_ok sch db hc hs b Γ env ha.1.2 hn.2 he).2
     simp only [inferMult]
     apply override_ok (by simpa [eval] using hcard)
     simp only [eval]
-    exact unionMult_ok iha ihb hsafe.1.1
+    apply unionMult_ok iha ihb hsafe.1.1.1
+    intro htd v hva hvb
+    rcases hsafe.1.1.2 with h | h
+    · rw [h] at htd; cases htd
+    · cases hta : tyOf sch (Γ.map (·.ty)) a with
+      | other => simp [hta] at h
+      | obj ts =>
+        cases htb : tyOf sch (Γ.map (·.ty)) b with
+        | other => simp [hta, htb] at h
+        | obj us =>
+          match ts, us, hta, htb with
+          | [x], [y], hta, htb =>
+            have h1 := tya v hva
+            have h2 := tyb v hvb
+            rw [hta] at h1 htd; rw [htb] at h2 htd
+            exact typesDisjoint_plain hc htd h1 h2
+          | [], _, hta, htb => simp [hta, htb] at h
+          | _ :: _ :: _, _, hta, htb => simp [hta, htb] at h
+          | [_], [], hta, htb => simp [hta, htb] at h
+          | [_], _ :: _ :: _, hta, htb => simp [hta, htb] at h
   | .distinct a => by
     intro Γ env dist ha hn hsafe he
     have hcard := (card_ok sch db hc hs (.distinct a) Γ env ha hn he).1
@@ -500,7 +565,7 @@ theorem mult_ok (sch : Schema) (db : DB) (hc : Conforms sch db) (hs : SigOK sch)
       split <;> simp [MI.DUPLICATE, γm]
 theorem mult_ok_list (sch : Schema) (db : DB) (hc : Conforms sch db) (hs : SigOK sch) :
     (qs : List Q) → ∀ (Γ : VCtx) (env : List Val) (dist : Option Nat), acceptsList sch Γ qs = true →
-      noExclRuleList sch Γ qs = true → multSafeList sch Γ dist qs = true → EnvOK db Γ env →
+      noExclRuleList sch Γ qs = true → multSafeList sch Γ dist qs = true → EnvOK sch db Γ env →
       ∀ l ∈ evalList sch db env qs, ∃ m ∈ inferMultList sch Γ dist qs, γm m.info.own l
   | [] => by
     intro Γ env dist _ _ _ _ l hl
